@@ -143,98 +143,7 @@ func runC07(c *Ctx) {
 
 	// ---------------------------------------------------------------- R3
 	c.rule("R3", "every connection read/write error leads to close-with-error on that path", 5)
-	closers := map[string]bool{"(*" + T + "TraditionalDnsConn).CloseWithErr": true, "(*" + T + "reusableConn).closeWithErr": true}
-	isCloser := func(in ssa.Instruction) bool {
-		ci, ok := in.(*ssa.Call)
-		return ok && closers[callName(ci)]
-	}
-	// I/O operations on a connection object: Write invoke on field c, frame readers on field c, and in-package helpers doing so
-	ioFns := map[*ssa.Function]bool{}
-	isDirectIO := func(in ssa.Instruction) bool {
-		ci, ok := in.(*ssa.Call)
-		if !ok {
-			return false
-		}
-		n := callName(ci)
-		if ci.Call.IsInvoke() && ci.Call.Method.Name() == "Write" {
-			if k, ok := loadedField(ci.Call.Value); ok && (k == T+"TraditionalDnsConn.c" || k == T+"reusableConn.c") {
-				return true
-			}
-		}
-		if n == "pkg/dnsutils.ReadRawMsgFromTCP" || n == relTransport+".readMsgUdp" {
-			if k, ok := loadedField(stripConv(ci.Call.Args[0])); ok && (k == T+"TraditionalDnsConn.c" || k == T+"reusableConn.c") {
-				return true
-			}
-		}
-		return false
-	}
-	for _, f := range p.funcsIn(relTransport) {
-		has := false
-		handles := false
-		eachInstr(f, func(in ssa.Instruction) {
-			if isDirectIO(in) {
-				has = true
-			}
-			if isCloser(in) {
-				handles = true
-			}
-		})
-		if has && !handles {
-			ioFns[f] = true // pure I/O helper (writeQuery, readResp): obligations at its call sites
-		}
-	}
-	for _, f := range p.funcsIn(relTransport) {
-		fn := f
-		if ioFns[f] {
-			continue
-		}
-		eachInstr(f, func(in ssa.Instruction) {
-			ci, ok := in.(*ssa.Call)
-			if !ok {
-				return
-			}
-			site := isDirectIO(in)
-			if sc := staticCallee(ci); sc != nil && ioFns[sc] {
-				site = true
-			}
-			if !site {
-				return
-			}
-			var errV ssa.Value
-			if ci.Type().String() == "error" {
-				errV = ci
-			}
-			for _, r := range referrers(ci) {
-				if ex, ok := r.(*ssa.Extract); ok && ex.Type().String() == "error" {
-					errV = ex
-				}
-			}
-			key := "io-error@" + funcName(fn)
-			if errV == nil {
-				c.fail(key, instrPos(in), "the I/O error is discarded")
-				return
-			}
-			good := false
-			for _, r := range referrers(errV) {
-				bo, ok := r.(*ssa.BinOp)
-				if !ok || bo.Op != token.NEQ || !isNilConst(bo.Y) {
-					continue
-				}
-				for _, r2 := range referrers(bo) {
-					iff, ok := r2.(*ssa.If)
-					if !ok {
-						continue
-					}
-					// every path from the error branch to an exit passes the closer
-					if _, leak := reachFromBlock(iff.Block().Succs[0], isExit, isCloser); !leak {
-						good = true
-					}
-				}
-			}
-			c.check(good, key, instrPos(in), "a failed read/write closes the connection with the error",
-				"an error from the connection does not reach CloseWithErr on every path: the connection stays in the pool and its other waiters are never woken")
-		})
-	}
+	ioFns := checkIOErrorCloses(c)
 
 	// ---------------------------------------------------------------- R4
 	c.rule("R4", "closeNotify is closed and the socket closed only inside sync.Once.Do, after closeErr is set", 6)
@@ -510,6 +419,11 @@ func runC07(c *Ctx) {
 						}
 						if !has {
 							okSends, why = false, "a blocking select without a Done case"
+						}
+						if has {
+							if ok2, w := handOffOutlivedByReceiver(p, fn, y); !ok2 {
+								okSends, why = false, w
+							}
 						}
 					}
 				}
@@ -847,4 +761,283 @@ func callName2(v ssa.Value) (string, bool) {
 		return "", false
 	}
 	return callName(cl), true
+}
+
+// handOffOutlivedByReceiver: a one-shot goroutine hands its result to the function that started it over an
+// unbuffered channel inside `select { case ch <- v: ; case <-X.Done(): }`. The goroutine is only guaranteed to end if
+// the Done case fires whenever the receiver has left. That holds when (A) X is a context created in the receiver
+// (context.WithCancel/WithTimeout/WithDeadline) whose cancel function the receiver defers, or (B) every other arm
+// through which the receiver's select can leave waits on a context the goroutine's select watches too.
+func handOffOutlivedByReceiver(p *Prog, parent *ssa.Function, sel *ssa.Select) (bool, string) {
+	tr := p.newTracer()
+	tr.throughParams, tr.throughFields, tr.throughCalls = false, false, false
+	var sendCh ssa.Value
+	for _, st := range sel.States {
+		if st.Dir != types.SendOnly {
+			continue
+		}
+		for _, r := range tr.origins(st.Chan) {
+			mk, ok := r.(*ssa.MakeChan)
+			if !ok || mk.Parent() != parent {
+				continue
+			}
+			if n, isC := constInt(mk.Size); isC && n >= 1 {
+				continue // buffered: the send cannot block
+			}
+			sendCh = mk
+		}
+	}
+	if sendCh == nil {
+		return true, ""
+	}
+	ctxRoots := func(done ssa.Value) []ssa.Value {
+		cl, ok := done.(*ssa.Call)
+		if !ok || !cl.Call.IsInvoke() {
+			return nil
+		}
+		return tr.origins(cl.Call.Value)
+	}
+	mine := map[ssa.Value]bool{}
+	for _, st := range sel.States {
+		if st.Dir == types.RecvOnly && isCtxDone(st.Chan) {
+			for _, r := range ctxRoots(st.Chan) {
+				mine[r] = true
+			}
+		}
+	}
+	// (A) receiver-scoped context with deferred cancel
+	for r := range mine {
+		ex, ok := r.(*ssa.Extract)
+		if !ok || ex.Index != 0 {
+			continue
+		}
+		cl, ok := ex.Tuple.(*ssa.Call)
+		if !ok || cl.Parent() != parent {
+			continue
+		}
+		switch callName(cl) {
+		case "context.WithCancel", "context.WithTimeout", "context.WithDeadline", "context.WithCancelCause":
+		default:
+			continue
+		}
+		deferred := false
+		eachInstr(parent, func(in ssa.Instruction) {
+			d, ok := in.(*ssa.Defer)
+			if !ok {
+				return
+			}
+			if e2, ok := d.Call.Value.(*ssa.Extract); ok && e2.Tuple == ex.Tuple && e2.Index == 1 {
+				deferred = true
+			}
+		})
+		if deferred {
+			return true, ""
+		}
+	}
+	// (B) every other arm of the receiver's select is watched by the goroutine too
+	var recvSel *ssa.Select
+	eachInstr(parent, func(in ssa.Instruction) {
+		s2, ok := in.(*ssa.Select)
+		if !ok {
+			return
+		}
+		for _, st := range s2.States {
+			if st.Dir == types.RecvOnly {
+				for _, r := range tr.origins(st.Chan) {
+					if r == sendCh {
+						recvSel = s2
+					}
+				}
+			}
+		}
+	})
+	if recvSel == nil {
+		return false, "the goroutine hands its result over on an unbuffered channel, but the receiving select was not found"
+	}
+	for _, st := range recvSel.States {
+		if st.Dir != types.RecvOnly {
+			continue
+		}
+		isMine := false
+		for _, r := range tr.origins(st.Chan) {
+			if r == sendCh {
+				isMine = true
+			}
+		}
+		if isMine {
+			continue
+		}
+		if !isCtxDone(st.Chan) {
+			return false, "the receiver can leave through " + exprStr(st.Chan) + " while the goroutine is still blocked in its unbuffered send"
+		}
+		for _, r := range ctxRoots(st.Chan) {
+			same := mine[r]
+			if _, isLoad := r.(*ssa.UnOp); isLoad && !same {
+				// a context kept in a field (t.ctx): the goroutine's load and the receiver's load are
+				// different values of the same field of the same object
+				objOf := func(v ssa.Value) (string, map[ssa.Value]bool) {
+					u, ok := v.(*ssa.UnOp)
+					if !ok || u.Op != token.MUL {
+						return "", nil
+					}
+					fa, ok := u.X.(*ssa.FieldAddr)
+					if !ok {
+						return "", nil
+					}
+					k, _ := fieldKey(fa)
+					bs := map[ssa.Value]bool{}
+					for _, b := range tr.origins(fa.X) {
+						bs[b] = true
+					}
+					return k, bs
+				}
+				rk, rb := objOf(r)
+				for m := range mine {
+					mk, mb := objOf(m)
+					if rk == "" || mk != rk {
+						continue
+					}
+					for b := range mb {
+						if rb[b] {
+							same = true
+						}
+					}
+				}
+			}
+			if !same {
+				var ms []string
+				for m := range mine {
+					ms = append(ms, exprStr(m))
+				}
+				_ = ms
+				return false, "the receiver can leave through " + exprStr(st.Chan) + " [root " + exprStr(r) + "; goroutine watches " + strings.Join(ms, ", ") + "] (e.g. the transport was closed) while the goroutine's hand-off select only watches another context: the goroutine stays blocked on the unbuffered channel until that context ends, for a background context forever"
+			}
+		}
+	}
+	return true, ""
+}
+
+// checkIOErrorCloses implements C07-R3 / C08-R5: every read/write error on a connection object reaches the
+// connection's close-with-error on every path (so the dead connection leaves the pool and wakes its waiters).
+// Returns the pure I/O helpers (functions that do connection I/O without handling its errors).
+func checkIOErrorCloses(c *Ctx) map[*ssa.Function]bool {
+	p := c.P
+	T := relTransport + "."
+	closers := map[string]bool{"(*" + T + "TraditionalDnsConn).CloseWithErr": true, "(*" + T + "reusableConn).closeWithErr": true}
+	closerFns := map[*ssa.Function]bool{}
+	isCloser := func(in ssa.Instruction) bool {
+		ci, ok := in.(*ssa.Call)
+		if !ok {
+			return false
+		}
+		if closers[callName(ci)] {
+			return true
+		}
+		sc := staticCallee(ci)
+		return sc != nil && closerFns[sc]
+	}
+	// wrappers: a function all of whose paths pass a closer is a closer itself (fixpoint)
+	for changed := true; changed; {
+		changed = false
+		for _, f := range p.funcsIn(relTransport) {
+			if closerFns[f] || len(f.Blocks) == 0 || closers[funcName(f)] {
+				continue
+			}
+			if _, leak := reachFromBlock(f.Blocks[0], isExit, isCloser); !leak {
+				closerFns[f] = true
+				changed = true
+			}
+		}
+	}
+	// I/O operations on a connection object: Write invoke on field c, frame readers on field c, and in-package helpers doing so
+	ioFns := map[*ssa.Function]bool{}
+	for _, f := range p.funcsIn(relTransport) {
+		has := false
+		handles := false
+		eachInstr(f, func(in ssa.Instruction) {
+			if isDirectIO(in) {
+				has = true
+			}
+			if isCloser(in) {
+				handles = true
+			}
+		})
+		if has && !handles {
+			ioFns[f] = true // pure I/O helper (writeQuery, readResp): obligations at its call sites
+		}
+	}
+	for _, f := range p.funcsIn(relTransport) {
+		fn := f
+		if ioFns[f] {
+			continue
+		}
+		eachInstr(f, func(in ssa.Instruction) {
+			ci, ok := in.(*ssa.Call)
+			if !ok {
+				return
+			}
+			site := isDirectIO(in)
+			if sc := staticCallee(ci); sc != nil && ioFns[sc] {
+				site = true
+			}
+			if !site {
+				return
+			}
+			var errV ssa.Value
+			if ci.Type().String() == "error" {
+				errV = ci
+			}
+			for _, r := range referrers(ci) {
+				if ex, ok := r.(*ssa.Extract); ok && ex.Type().String() == "error" {
+					errV = ex
+				}
+			}
+			key := "io-error@" + funcName(fn)
+			if errV == nil {
+				c.fail(key, instrPos(in), "the I/O error is discarded")
+				return
+			}
+			good := false
+			for _, r := range referrers(errV) {
+				bo, ok := r.(*ssa.BinOp)
+				if !ok || bo.Op != token.NEQ || !isNilConst(bo.Y) {
+					continue
+				}
+				for _, r2 := range referrers(bo) {
+					iff, ok := r2.(*ssa.If)
+					if !ok {
+						continue
+					}
+					// every path from the error branch to an exit passes the closer
+					if _, leak := reachFromBlock(iff.Block().Succs[0], isExit, isCloser); !leak {
+						good = true
+					}
+				}
+			}
+			c.check(good, key, instrPos(in), "a failed read/write closes the connection with the error",
+				"an error from the connection does not reach CloseWithErr on every path: the connection stays in the pool and its other waiters are never woken")
+		})
+	}
+	return ioFns
+}
+
+// isDirectIO: a Write on / frame read from the connection field of a connection object.
+func isDirectIO(in ssa.Instruction) bool {
+	T := relTransport + "."
+	ci, ok := in.(*ssa.Call)
+	if !ok {
+		return false
+	}
+	n := callName(ci)
+	if ci.Call.IsInvoke() && ci.Call.Method.Name() == "Write" {
+		if k, ok := loadedField(ci.Call.Value); ok && (k == T+"TraditionalDnsConn.c" || k == T+"reusableConn.c") {
+			return true
+		}
+	}
+	if n == "pkg/dnsutils.ReadRawMsgFromTCP" || n == relTransport+".readMsgUdp" {
+		if k, ok := loadedField(stripConv(ci.Call.Args[0])); ok && (k == T+"TraditionalDnsConn.c" || k == T+"reusableConn.c") {
+			return true
+		}
+	}
+	return false
 }
